@@ -57,18 +57,29 @@ def absDup (origs : List Msg) (mid : Nat) (tok : Bytes) (flt : Option (List Nat)
       Spec.duplicate false a mid tok (filterGet f) ::
         (if Spec.dupHopOk a.code (Spec.keep (filterGet f) a.opts) then [Spec.duplicate true a mid tok (filterGet f)] else [])).eraseDups
 
-/-- the S column: admissible abstract results of <ops1>, duplication, <ops2> under the given return codes -/
-def specStr (p : Proto) (m0 : Option Msg) (calls1 : List Call) (rcs1 : List Nat) (mid : Nat) (tok : Bytes)
-    (f : Option (List Nat)) (calls2 : List Call) (rcs2 : List Nat) : String :=
+/-- the S column under CLAIMED return codes (D17: those of removals are prescribed, see Build.rcOk): admissible abstract
+results of <ops1>, duplication, <ops2>.  `acc2 = none`: the copy was refused (D14: admissible), only <ops1> is judged. -/
+def specUnder2 (p : Proto) (m0 : Option Msg) (calls1 : List Call) (acc1 : List Bool) (mid : Nat) (tok : Bytes)
+    (f : Option (List Nat)) (calls2 : List Call) (acc2 : Option (List Bool)) : String :=
   match m0 with
   | none => "skip"
   | some m0 =>
-    let origs := Build.absRun [m0] calls1 rcs1
-    let alts := (Build.absRun (absDup origs mid tok f) calls2 rcs2).filter fun a => decide (Spec.WF p a)
-    if origs.length > 16 || alts.isEmpty || alts.length > 16 then "skip" else
-    "rcs=" ++ pat rcs1 ++ "/" ++ pat rcs2 ++ " " ++
-      String.intercalate " || " (alts.map fun a =>
-        "msg=" ++ showMsgD (Spec.onWire p a) ++ " bytes=" ++ dg (Spec.encode p a))
+    let hd := "rcs=" ++ Build.patStr acc1 ++ "/" ++ (match acc2 with | some a => Build.patStr a | none => "N") ++ " "
+    match Build.absRunRc [m0] calls1 acc1 0 with
+    | .error k => hd ++ Build.norunStr calls1 acc1 k
+    | .ok origs =>
+      match acc2 with
+      | none => hd ++ "null"
+      | some acc2 =>
+        match Build.absRunRc (absDup origs mid tok f) calls2 acc2 0 with
+        | .error k => hd ++ "copy " ++ Build.norunStr calls2 acc2 k
+        | .ok all =>
+          let alts := all.filter fun a => decide (Spec.WF p a)
+          if origs.length > 16 || alts.isEmpty || alts.length > 16 then "skip" else hd ++ Build.altsStr p alts
+
+def specStr (p : Proto) (m0 : Option Msg) (calls1 : List Call) (rcs1 : List Nat) (mid : Nat) (tok : Bytes)
+    (f : Option (List Nat)) (calls2 : List Call) (rcs2 : List Nat) : String :=
+  specUnder2 p m0 calls1 (rcs1.map fun rc => rc != 0) mid tok f calls2 (some (rcs2.map fun rc => rc != 0))
 
 /-- everything after <ops1>: `pre` = what was printed so far for M, `m0` = abstract start message (none: no S) -/
 def dupRest (p : Proto) (pre : String) (start : Pdu) (m0 : Option Msg) (calls1 : List Call)
